@@ -28,9 +28,8 @@ def validate_tree(m, tree, g, word, max_nodes=400):
             continue
         if id(node) in on_path:
             return "cyclic object graph"
-        if id(node) in seen:
-            return "node shared between two parents"
-        seen.add(id(node))
+        # a completed subtree may be shared between two parents (a DAG read as a tree): the property does not
+        # forbid that; only a cycle makes the object not a tree
         count[0] += 1
         if count[0] > max_nodes:
             return "tree has more than %d nodes" % max_nodes
